@@ -114,6 +114,11 @@ zzRedCrandMont(a, mod, W, n) == zzRedMont(a, mod, W, n)
 \* ---- powers
 zzPowerMod(a, b, mod) == ModExp(a, b, mod)                        \* 0^0 = 1 (mod mod)
 zzPowerModW(a, b, mod) == ModExp(Mod(a, mod), b, mod)
+\* ---- the "pure" Montgomery ring of zmMontCreate (zm.h): R = 2^l, elements kept as they are
+zmMont2R(l, mod) == Mod(PowerOf2(l), mod)                                                   \* the unity
+zmMont2Mul(a, b, l, mod) == MulMod(MulMod(a, b, mod), ModInv(zmMont2R(l, mod), mod), mod)   \* a b R^-1
+zmMont2Inv(a, l, mod) == MulMod(ModInv(a, mod), MulMod(zmMont2R(l, mod), zmMont2R(l, mod), mod), mod)   \* a^-1 R^2 (a invertible)
+zmMont2Div(dv, a, l, mod) == MulMod(MulMod(dv, ModInv(a, mod), mod), zmMont2R(l, mod), mod)  \* dv (*) inv(a) = dv a^-1 R
 \* ---- random residues: zzRandMod  a <-R {0, ..., mod - 1},  zzRandNZMod  a <-R {1, ..., mod - 1}  (pre: mod[n-1] # 0; mod # 1)
 \* zz.h promises the range of a on success; a failure is possible only when the generator's output is of low statistical
 \* quality (for true random octets its probability is below 2^-B_PER_IMPOSSIBLE): a seeded pseudorandom tape must succeed,
